@@ -71,6 +71,11 @@ def main(argv=None):
     except Exception as error:  # never let a traceback look like a violation (exit 1)
         result.error("internal error: %s: %s" % (type(error).__name__, error))
         traceback.print_exc()
+    if args.tier == "thorough" and os.environ.get("CPSA_SELFTEST", "1") != "0" and not args.replay:
+        try:
+            selftest(property_id, args.repo, result)
+        except Exception as error:  # the self-test is about the checker, never a verdict about cutplace
+            result.error("self-test could not run: %s: %s" % (type(error).__name__, error))
     if args.replay:
         with open(args.replay, "r", encoding="utf-8") as replay_file:
             wanted = json.load(replay_file)
@@ -81,6 +86,82 @@ def main(argv=None):
         return 1 if hits else (2 if result.errors else 0)
     checker_cmd = "/venv/bin/python check.py %s --tier %s" % (property_id, args.tier)
     return report.finish(result, started, seed, explanation, trusted, assumptions, checker_cmd)
+
+
+def selftest(property_id, repo, result):
+    """
+    Thorough tier: test the checker both ways on scratch copies of the CURRENT tree (outside /repo and /verif, removed
+    at once): behaviour-preserving variants must leave this property's verdict unchanged, breaking variants written
+    against this property must be reported.  A disagreement is an ANALYSIS-ERROR of the checker.
+    """
+    import shutil
+    import subprocess
+    from concurrent.futures import ThreadPoolExecutor
+
+    from cpsa.selftest import catalogue
+    from cpsa.selftest.mutate import apply_edit, make_scratch
+
+    base_findings = sorted(finding.key for finding in result.findings)
+
+    def run_variant(item):
+        kind, entry = item
+        name, relpath, old, new = entry[:4]
+        scratch = make_scratch(repo)
+        try:
+            try:
+                if kind == "seeded":
+                    applied = subprocess.run(["git", "apply", "--whitespace=nowarn", old], cwd=scratch, capture_output=True, text=True)
+                    if applied.returncode != 0:
+                        return kind, name, "skipped", applied.stderr.strip()[:120]
+                else:
+                    apply_edit(scratch, relpath, old, new)
+            except (ValueError, SyntaxError, OSError) as error:
+                return kind, name, "skipped", str(error)[:120]
+            env = dict(os.environ, CPSA_REPO=scratch, CPSA_EVIDENCE_DIR=os.path.join(scratch, "_evidence"), CPSA_SELFTEST="0")
+            process = subprocess.run([sys.executable, os.path.abspath(__file__), property_id, "--tier", "quick"],
+                                     capture_output=True, text=True, env=env, cwd=os.path.dirname(os.path.abspath(__file__)))
+            keys = sorted(line.split("key=", 1)[1].strip() for line in process.stdout.splitlines() if line.strip().startswith("key="))
+            known = sorted(line.split(" ", 3)[2] for line in process.stdout.splitlines() if line.startswith("KNOWN-FINDING:"))
+            return kind, name, process.returncode, (keys, known)
+        finally:
+            shutil.rmtree(scratch, ignore_errors=True)
+
+    work = [("benign", entry) for entry in catalogue.BENIGN]
+    work += [("breaking", entry) for entry in catalogue.BREAKING if len(entry) > 4 and property_id in entry[4]]
+    seeded_root = os.path.join(os.path.dirname(os.path.abspath(__file__)), "seeded")
+    if os.path.isdir(seeded_root):
+        for seed_name in sorted(os.listdir(seeded_root)):
+            meta_path = os.path.join(seeded_root, seed_name, "meta.json")
+            patch_path = os.path.join(seeded_root, seed_name, "patch.diff")
+            if os.path.exists(meta_path) and os.path.exists(patch_path):
+                with open(meta_path, "r", encoding="utf-8") as meta_file:
+                    meta = json.load(meta_file)
+                if meta.get("breaks_property", meta.get("property")) == property_id:
+                    work.append(("seeded", ("seeded change %s" % seed_name, None, patch_path, None)))
+    jobs = min(16, os.cpu_count() or 4)
+    counts = {"benign_silent": 0, "benign_total": 0, "breaking_fired": 0, "breaking_total": 0, "skipped": 0}
+    base_exit = 1 if any(True for _ in result.findings if _.key not in {e.get("key") for e in report.load_known_findings().get("known", [])}) else 0
+    with ThreadPoolExecutor(max_workers=jobs) as pool:
+        for kind, name, code, detail in pool.map(run_variant, work):
+            if code == "skipped":
+                counts["skipped"] += 1
+                result.note("self-test variant skipped (anchor text not found in the current tree): %s" % name)
+                continue
+            if kind == "benign":
+                counts["benign_total"] += 1
+                if code == base_exit or (code in (0, 1) and base_exit == 1):
+                    counts["benign_silent"] += 1
+                else:
+                    result.error("self-test: behaviour-preserving variant %r changes the verdict of %s (exit %s): %s" % (name, property_id, code, detail))
+            else:
+                counts["breaking_total"] += 1
+                if code == 1:
+                    counts["breaking_fired"] += 1
+                else:
+                    result.error("self-test: %s variant %r is not reported by %s (exit %s)" % (kind, name, property_id, code))
+    result.analysed["selftest"] = counts
+    result.note("self-test: %(benign_silent)d/%(benign_total)d benign variants silent, %(breaking_fired)d/%(breaking_total)d breaking variants reported, "
+                "%(skipped)d skipped" % counts)
 
 
 if __name__ == "__main__":
